@@ -3,12 +3,16 @@
      ChangeZoom.change_eids / change_ext_api      (integrate.ChangeExtendedSpatialIdsZoom, C03),
      Merge.merge / merge_ext_api                  (integrate.MergeExtendedSpatialIds, C04),
      PointF.x_f / y_f / f_f / point_eid           (shape.GetExtendedSpatialIdsOnPoints, bit-exact binary64 + libm oracle, C01),
-   adds the model of detector.CheckExtendedSpatialIdsOverlap exactly as the Go code is written (split both IDs, Atoi of the zoom
-   fields with the errors dropped, per-axis minimum zoom, two ChangeExtendedSpatialIdsZoom calls, compare element [0]), and proves
+   adds the model of detector.CheckExtendedSpatialIdsOverlap following the Go code step by step (split both IDs, Atoi of the zoom
+   fields with the errors dropped, per-axis minimum zoom, two ChangeExtendedSpatialIdsZoom calls, compare element [0]); it differs from the
+   code outside valid IDs only: Atoi's clamped value on a range error is modelled as 0 (unobservable), the panic of [0] on an empty list as Err
+   (unreachable), and zoom fields >= 63 with an index of -2^63 (int64 wrap of 2^|d|; C03's model boundary). All theorems are about these
+   MODELS; the tie to the Go code is differential execution (DC09.v). It proves
      1. zoom in, then out: the ID comes back — as a list, and at the string level;
      2. merging the complete set of descendants (any order, any repetition, any map order inside merge) gives back exactly the ID;
      3. nesting of the voxels of one point over zooms, for the float code: x for every finite longitude of the domain, y for every
-        libm oracle whose value lands in range, f outside the denormal class alt_underflow (refuted on it);
+        libm oracle whose value lands in range, f outside the defect class alt_vanishes (negative altitude whose quotient alt/2^(25-v) rounds to -0; inside C01's
+        alt_underflow; refuted on it, and the class is exactly the defect);
         hence the voxels of a point at any two zoom pairs (also crossed ones) overlap;
      4. the overlap check on printed valid IDs decides `overlaps`, so it answers true on two voxels of the same point.
    The boolean checkers used by DC09.v are defined here and proved equivalent to their specifications. *)
@@ -210,23 +214,33 @@ Theorem merge_descendants_valid ord : (forall l, Permutation (ord l) l) ->
   merge ord (eh i) (ev i) l = [i].
 Proof. intros P i H V l Hv. apply (merge_descendants ord P i H V l). now apply valid_wf. Qed.
 
-(* the exported function on the printed descendants *)
-Theorem merge_descendants_api i H V l : valid i -> eh i <= H <= 35 -> ev i <= V <= 35 ->
+(* the exported function on the printed descendants. MergeExtendedSpatialIds computes its threshold 4^dh * 2^dv in int64 (Merge.merge_x64);
+   the hypothesis 2 dh + dv <= 62 keeps it from wrapping (beyond it the descendants could not be enumerated anyway) *)
+Lemma descendants_fit64 i H V l : 0 <= H -> 0 <= V -> 2 * (H - eh i) + (V - ev i) <= 62 -> eh i <= H -> ev i <= V ->
+  (forall o, In o l -> eh o = H /\ ev o = V) -> fits64 (eh i) (ev i) l.
+Proof.
+  intros H0 V0 B Lh Lv Hz. unfold fits64.
+  assert (A1 : maxz eh l <= H) by (apply maxz_le; [exact H0|]; intros o Ho; destruct (Hz o Ho); lia).
+  assert (A2 : maxz ev l <= V) by (apply maxz_le; [exact V0|]; intros o Ho; destruct (Hz o Ho); lia).
+  lia.
+Qed.
+Theorem merge_descendants_api i H V l : valid i -> eh i <= H <= 35 -> ev i <= V <= 35 -> 2 * (H - eh i) + (V - ev i) <= 62 ->
   (forall o, In o l <-> In o (change_eids [i] H V)) ->
   merge_ext_api (map print_eid l) (eh i) (ev i) = Ok [print_eid i].
 Proof.
-  intros Hv HH HV Hl. pose proof Hv as (Zh & Zv & _).
+  intros Hv HH HV B Hl. pose proof Hv as (Zh & Zv & _).
   assert (V1 : forall j, In j [i] -> valid j) by (intros j [<-|[]]; exact Hv).
-  rewrite merge_ext_api_ok; [|lia|lia|intros o Ho; apply (change_valid [i] H V o V1); [lia|lia|now apply Hl]].
-  unfold merge_x. rewrite (merge_descendants (fun l => l) (fun l => Permutation_refl l) i H V l); auto; try lia.
-  now apply valid_wf.
+  rewrite merge_ext_api_ok; [|lia|lia|intros o Ho; apply (change_valid [i] H V o V1); [lia|lia|now apply Hl]|].
+  - unfold merge_x. rewrite (merge_descendants (fun l => l) (fun l => Permutation_refl l) i H V l); auto; try lia.
+    now apply valid_wf.
+  - apply (descendants_fit64 i H V l); try lia. intros o Ho. apply Hl in Ho. now apply change_at_zoom in Ho.
 Qed.
 
 (* zoom in with ChangeExtendedSpatialIdsZoom, then merge at the ID's own zooms: the ID *)
-Corollary zoom_in_then_merge_api i H V : valid i -> eh i <= H <= 35 -> ev i <= V <= 35 ->
+Corollary zoom_in_then_merge_api i H V : valid i -> eh i <= H <= 35 -> ev i <= V <= 35 -> 2 * (H - eh i) + (V - ev i) <= 62 ->
   exists mid, change_ext_api [print_eid i] H V = Ok mid /\ merge_ext_api mid (eh i) (ev i) = Ok [print_eid i].
 Proof.
-  intros Hv HH HV. pose proof Hv as (Zh & Zv & _).
+  intros Hv HH HV B. pose proof Hv as (Zh & Zv & _).
   assert (V1 : forall j, In j [i] -> valid j) by (intros j [<-|[]]; exact Hv).
   exists (map print_eid (change_eids [i] H V)). split.
   - apply (change_ext_api_spec [i] H V V1); lia.
@@ -359,37 +373,158 @@ Proof.
   replace (h' + (h - h')) with h in A by lia. now rewrite A.
 Qed.
 
-(* ---- altitude: every finite altitude (|alt| <= 2^40) outside the denormal class at the COARSER zoom (the class shrinks as the
-        zoom grows) ---- *)
-Lemma alt_underflow_finer alt v v' : v' <= v -> ~ alt_underflow alt v' -> ~ alt_underflow alt v.
+
+(* ---- the exact shape of the denormal defect (D12) ---- *)
+Definition alt_vanishes (alt : pfloat) (v : Z) : Prop :=
+  (fval alt < 0)%R /\ rnd (fval alt * bpow radix2 (v - 25)) = 0%R.
+Definition alt_vanishes_b (alt : pfloat) (v : Z) : bool :=
+  (alt <? 0)%float && (alt / (pow2f 25 / pow2f v) =? 0)%float.
+
+Lemma bpow_fmt e : -1074 <= e -> fmt (bpow radix2 e).
+Proof. intros He. replace (bpow radix2 e) with (IZR 1 * bpow radix2 e)%R by ring. apply fmt_int; [simpl; lia | exact He]. Qed.
+Lemma rnd_opp x : rnd (- x) = (- rnd x)%R.
+Proof. apply round_NE_opp. Qed.
+Lemma rnd_abs_le x e : -1074 <= e -> (Rabs x <= bpow radix2 e)%R -> (Rabs (rnd x) <= bpow radix2 e)%R.
 Proof.
-  unfold alt_underflow. intros L N [A B]. apply N. split; [exact A|].
-  eapply Rlt_le_trans; [exact B|]. apply bpow_le. lia.
+  intros He Hx. apply Rabs_le_inv in Hx. destruct Hx as [A B]. apply Rabs_le. split.
+  - rewrite <- (rnd_fmt (- bpow radix2 e)) by (apply generic_format_opp, bpow_fmt; exact He). now apply rnd_le.
+  - rewrite <- (rnd_fmt (bpow radix2 e)) by (apply bpow_fmt; exact He). now apply rnd_le.
 Qed.
 
+(* the quotient alt / 2^(25-v) as the code computes it: one rounding of the exact product alt * 2^(v-25) *)
+Lemma quot_val alt v : 0 <= v <= 35 -> ffin alt = true -> (Rabs (fval alt) <= bpow radix2 40)%R ->
+  fval (alt / (pow2f 25 / pow2f v)) = rnd (fval alt * bpow radix2 (v - 25)) /\ ffin (alt / (pow2f 25 / pow2f v)) = true /\
+  (Rabs (rnd (fval alt * bpow radix2 (v - 25))) <= bpow radix2 50)%R.
+Proof.
+  intros Hv Fa Hb. destruct (res_val v Hv) as [Rv Rf]. set (res := (pow2f 25 / pow2f v)%float) in *.
+  assert (Ediv : (fval alt / bpow radix2 (25 - v) = fval alt * bpow radix2 (v - 25))%R).
+  { unfold Rdiv. rewrite <- bpow_opp. f_equal. f_equal. lia. }
+  assert (Bq : (Rabs (fval alt * bpow radix2 (v - 25)) <= bpow radix2 50)%R).
+  { rewrite Rabs_mult, (Rabs_pos_eq (bpow radix2 (v - 25))) by apply bpow_ge_0.
+    replace 50 with (40 + 10) by lia. rewrite bpow_plus.
+    apply Rmult_le_compat; [apply Rabs_pos | apply bpow_ge_0 | exact Hb | apply bpow_le; lia]. }
+  pose proof (rnd_abs_le _ 50 ltac:(lia) Bq) as Br.
+  destruct (div_val alt res Fa) as [V F].
+  - rewrite Rv. apply Rgt_not_eq, bpow_gt_0.
+  - rewrite Rv, Ediv. apply Rle_lt_trans with (1 := Br). apply bpow_lt. lia.
+  - rewrite Rv, Ediv in V. auto.
+Qed.
+
+Lemma f_f_floor_rnd alt v : 0 <= v <= 35 -> ffin alt = true -> (Rabs (fval alt) <= bpow radix2 40)%R ->
+  f_f alt v = Some (Zfloor (rnd (fval alt * bpow radix2 (v - 25)))).
+Proof.
+  intros Hv Fa Hb. destruct (quot_val alt v Hv Fa Hb) as (V & F & B). unfold f_f.
+  rewrite Ztrunc_ffloor; [now rewrite V | exact F |]. rewrite V. apply Rle_lt_trans with (1 := B). apply bpow_lt. lia.
+Qed.
+
+Lemma alt_vanishes_b_spec alt v : 0 <= v <= 35 -> ffin alt = true -> (Rabs (fval alt) <= bpow radix2 40)%R ->
+  alt_vanishes_b alt v = true <-> alt_vanishes alt v.
+Proof.
+  intros Hv Fa Hb. destruct (quot_val alt v Hv Fa Hb) as (V & F & _). destruct zero_val as [Z0 F0].
+  unfold alt_vanishes_b, alt_vanishes. rewrite andb_true_iff, (ltb_val _ _ Fa F0), (eqb_val _ _ F F0), Z0, V.
+  destruct (Rlt_bool_spec (fval alt) 0); destruct (Req_bool_spec (rnd (fval alt * bpow radix2 (v - 25))) 0); split; intros [A B]; try discriminate; try lra; auto.
+Qed.
+
+(* the class is inside C01's alt_underflow, and it is exactly the defect: the code answers 0, the floor is -1 *)
+Lemma vanishes_small alt v : alt_vanishes alt v -> (- bpow radix2 (-1074) < fval alt * bpow radix2 (v - 25) < 0)%R.
+Proof.
+  intros [N R0]. assert (P : (0 < bpow radix2 (v - 25))%R) by apply bpow_gt_0. split; [|nra].
+  destruct (Rle_or_lt (fval alt * bpow radix2 (v - 25)) (- bpow radix2 (-1074))) as [L|L]; [|exact L]. exfalso.
+  apply rnd_le in L. rewrite (rnd_fmt (- bpow radix2 (-1074))) in L by (apply generic_format_opp, bpow_fmt; lia).
+  pose proof (bpow_gt_0 radix2 (-1074)). lra.
+Qed.
+Lemma vanishes_underflow alt v : alt_vanishes alt v -> alt_underflow alt v.
+Proof.
+  intros Hv. pose proof (vanishes_small alt v Hv) as [A B]. destruct Hv as [N _]. split; [lra|].
+  rewrite Rabs_left by exact N.
+  assert (P : (0 < bpow radix2 (v - 25))%R) by apply bpow_gt_0.
+  assert (E : bpow radix2 (-1074) = (bpow radix2 (-1049 - v) * bpow radix2 (v - 25))%R) by (rewrite <- bpow_plus; f_equal; lia).
+  assert (L : (- fval alt < bpow radix2 (-1049 - v))%R) by (rewrite E in A; nra).
+  apply Rlt_le_trans with (1 := L). apply bpow_le. lia.
+Qed.
+Theorem vanishes_is_the_defect alt v : 0 <= v <= 35 -> ffin alt = true -> (Rabs (fval alt) <= bpow radix2 40)%R ->
+  alt_vanishes alt v -> f_f alt v = Some 0 /\ F_exact v (fval alt) = -1.
+Proof.
+  intros Hv Fa Hb Hc. pose proof (vanishes_small alt v Hc) as [A B]. destruct Hc as [N R0].
+  rewrite (f_f_floor_rnd alt v Hv Fa Hb), R0, F_exact_alt. split; [now rewrite Zfloor_IZR|].
+  apply Zfloor_imp. assert (bpow radix2 (-1074) < 1)%R by (change 1%R with (bpow radix2 0); apply bpow_lt; lia).
+  change (IZR (-1)) with (-1)%R. change (IZR (-1 + 1)) with 0%R.
+  set (q := (fval alt * bpow radix2 (v - 25))%R) in *. set (e := bpow radix2 (-1074)) in *. clearbody q e. lra.
+Qed.
+Lemma vanishes_coarser alt v v' : v' <= v -> alt_vanishes alt v -> alt_vanishes alt v'.
+Proof.
+  intros L [N R0]. split; [exact N|].
+  assert (E : (fval alt * bpow radix2 (v' - 25) = fval alt * bpow radix2 (v - 25) * bpow radix2 (v' - v))%R).
+  { rewrite Rmult_assoc, <- bpow_plus. do 2 f_equal. lia. }
+  assert (P1 : (0 < bpow radix2 (v' - v) <= 1)%R).
+  { split; [apply bpow_gt_0|]. change 1%R with (bpow radix2 0). apply bpow_le. lia. }
+  assert (P2 : (0 < bpow radix2 (v - 25))%R) by apply bpow_gt_0.
+  assert (Q : (fval alt * bpow radix2 (v - 25) < 0)%R) by nra.
+  set (q := (fval alt * bpow radix2 (v - 25))%R) in *. clearbody q.
+  apply Rle_antisym.
+  - apply Rle_trans with (rnd 0); [apply rnd_le | rewrite rnd_0; apply Rle_refl]. rewrite E. nra.
+  - rewrite <- R0. apply rnd_le. rewrite E. nra.
+Qed.
+
+(* exactness of the altitude index outside the defect class — sharper than FF.f_f_exact: positive denormal altitudes and negative ones
+   whose quotient does not round to zero are included *)
+Theorem f_f_exact_sharp alt v : 0 <= v <= 35 -> ffin alt = true -> (Rabs (fval alt) <= bpow radix2 40)%R ->
+  ~ alt_vanishes alt v -> f_f alt v = Some (F_exact v (fval alt)).
+Proof.
+  intros Hv Fa Hb Nv.
+  destruct (Rle_or_lt (bpow radix2 (-997 - v)) (Rabs (fval alt))) as [L|L].
+  { apply f_f_exact; auto. intros [_ C]. lra. }
+  destruct (Req_dec (fval alt) 0) as [E0|N0].
+  { apply f_f_exact; auto. intros [C _]. contradiction. }
+  rewrite (f_f_floor_rnd alt v Hv Fa Hb), F_exact_alt. f_equal.
+  set (q := (fval alt * bpow radix2 (v - 25))%R) in *.
+  assert (P : (0 < bpow radix2 (v - 25))%R) by apply bpow_gt_0.
+  assert (Eb : bpow radix2 (-1022) = (bpow radix2 (-997 - v) * bpow radix2 (v - 25))%R) by (rewrite <- bpow_plus; f_equal; lia).
+  assert (S1 : (bpow radix2 (-1022) < 1)%R) by (change 1%R with (bpow radix2 0); apply bpow_lt; lia).
+  assert (Q : (Rabs q < bpow radix2 (-1022))%R).
+  { unfold q. rewrite Rabs_mult, (Rabs_pos_eq (bpow radix2 (v - 25))) by lra. rewrite Eb. apply Rmult_lt_compat_r; assumption. }
+  pose proof (rnd_abs_le q (-1022) ltac:(lia) (Rlt_le _ _ Q)) as RQ.
+  apply Rabs_lt_inv in Q. apply Rabs_le_inv in RQ.
+  destruct (Rlt_or_le (fval alt) 0) as [Neg|Pos].
+  - assert (q < 0)%R by (unfold q; nra).
+    assert (R1 : (rnd q <= 0)%R) by (rewrite <- rnd_0; apply rnd_le; lra).
+    assert (R2 : rnd q <> 0%R) by (intros C; apply Nv; split; assumption).
+    rewrite (Zfloor_imp (-1) (rnd q)), (Zfloor_imp (-1) q); [reflexivity | |]; change (IZR (-1)) with (-1)%R; change (IZR (-1 + 1)) with 0%R; lra.
+  - assert (0 < q)%R by (unfold q; nra).
+    assert (R1 : (0 <= rnd q)%R) by (rewrite <- rnd_0; apply rnd_le; lra).
+    rewrite (Zfloor_imp 0 (rnd q)), (Zfloor_imp 0 q); [reflexivity | |]; simpl; lra.
+Qed.
+
+Lemma not_vanishes_finer alt v v' : v' <= v -> ~ alt_vanishes alt v' -> ~ alt_vanishes alt v.
+Proof. intros L N C. apply N. now apply (vanishes_coarser alt v v'). Qed.
+Lemma not_underflow_not_vanishes alt v : ~ alt_underflow alt v -> ~ alt_vanishes alt v.
+Proof. intros N C. apply N. now apply vanishes_underflow. Qed.
+
+(* ---- altitude: every finite altitude (|alt| <= 2^40) outside the defect class at the COARSER zoom (the class shrinks as the zoom
+        grows) ---- *)
 Theorem f_nested_partial (alt : pfloat) (v v' : Z) : 0 <= v' <= v -> v <= 35 ->
-  ffin alt = true -> (Rabs (fval alt) <= bpow radix2 40)%R -> ~ alt_underflow alt v' ->
+  ffin alt = true -> (Rabs (fval alt) <= bpow radix2 40)%R -> ~ alt_vanishes alt v' ->
   exists f, f_f alt v = Some f /\ f_f alt v' = Some (anc (v - v') f).
 Proof.
   intros Hv H35 Fa Ba Nu. exists (F_exact v (fval alt)).
-  rewrite (f_f_exact alt v) by (try assumption; try lia; now apply (alt_underflow_finer alt v v'); [lia|]).
-  rewrite (f_f_exact alt v') by (try assumption; lia).
+  rewrite (f_f_exact_sharp alt v) by (try assumption; try lia; now apply (not_vanishes_finer alt v v'); [lia|]).
+  rewrite (f_f_exact_sharp alt v') by (try assumption; lia).
   split; [reflexivity|]. f_equal. rewrite !F_exact_norm. apply nested_floor. lia.
 Qed.
 
 (* on the class the statement is false of the code (D12): the smallest negative denormal altitude is in layer -1 at vertical zoom 25
    (cell height 1 m: the division is exact) but in layer 0 at zoom 24 (the quotient underflows to -0) — and the parent of -1 is -1 *)
 Theorem f_nesting_underflow_refuted :
-  exists alt v v', 0 <= v' <= v /\ v <= 35 /\ ffin alt = true /\ (Rabs (fval alt) <= bpow radix2 25)%R /\ alt_underflow alt v' /\
+  exists alt v v', 0 <= v' <= v /\ v <= 35 /\ ffin alt = true /\ (Rabs (fval alt) <= bpow radix2 25)%R /\ alt_vanishes alt v' /\
     f_f alt v = Some (-1) /\ f_f alt v' = Some 0 /\ anc (v - v') (-1) <> 0 /\ ~ rel1 v (-1) v' 0.
 Proof.
   exists alt_witness, 25, 24. destruct alt_witness_val as [Vw Fw].
   assert (P : (0 < bpow radix2 (-1074))%R) by apply bpow_gt_0.
-  assert (Q : (bpow radix2 (-1074) < bpow radix2 (-997 - 24))%R) by (apply bpow_lt; lia).
   assert (Q2 : (bpow radix2 (-1074) < bpow radix2 25)%R) by (apply bpow_lt; lia).
-  split; [lia|]. split; [lia|]. split; [exact Fw|].
-  unfold alt_underflow. rewrite Vw, Rabs_Ropp, Rabs_pos_eq by lra.
-  split; [lra|]. split; [split; lra|].
+  assert (Q3 : (bpow radix2 25 <= bpow radix2 40)%R) by (apply bpow_le; lia).
+  assert (B25 : (Rabs (fval alt_witness) <= bpow radix2 25)%R) by (rewrite Vw, Rabs_Ropp, Rabs_pos_eq by lra; lra).
+  split; [lia|]. split; [lia|]. split; [exact Fw|]. split; [exact B25|].
+  split; [apply alt_vanishes_b_spec; [lia | exact Fw | lra | vm_compute; reflexivity]|].
   split; [vm_compute; reflexivity|]. split; [vm_compute; reflexivity|].
   split; vm_compute; discriminate.
 Qed.
@@ -443,12 +578,12 @@ Section WithOracle.
     apply Rabs_le. lra.
   Qed.
 
-  Lemma point_eid_pvox p h v : 0 <= h <= 35 -> 0 <= v <= 35 -> pt_dom p -> ~ alt_underflow (palt p) v ->
+  Lemma point_eid_pvox p h v : 0 <= h <= 35 -> 0 <= v <= 35 -> pt_dom p -> ~ alt_vanishes (palt p) v ->
     peid p h v = Some (pvox p h v).
   Proof.
     intros Hh Hv (Fl & Hl & Fa & Ha & Fm & Hm) Nu. unfold point_eid, pvox.
     rewrite (x_f_spec _ _ Hh Fl Hl), (y_f_inrange m_tan m_cos m_log _ _ Hh Fm Hm).
-    rewrite (f_f_exact _ _ Hv Fa (alt_abs40 _ Ha) Nu). reflexivity.
+    rewrite (f_f_exact_sharp _ _ Hv Fa (alt_abs40 _ Ha) Nu). reflexivity.
   Qed.
 
   Lemma pvox_valid p h v : 0 <= h <= 35 -> 0 <= v <= 35 -> pt_dom p -> valid (pvox p h v).
@@ -480,19 +615,19 @@ Section WithOracle.
     - rewrite !F_exact_norm. now apply rel1_of_point.
   Qed.
 
-  (* C09 (1st clause) for the float code, _partial: guard = the altitude is outside alt_underflow at the coarser vertical zoom, and the
+  (* C09 (1st clause) for the float code, _partial: guard = the altitude is outside alt_vanishes at the coarser vertical zoom, and the
      libm oracle's Mercator float is in range (pt_dom). Under it: the ID of the point at the coarser zooms (each axis independently
      coarser or equal) is the zoom-out of its ID at the finer zooms — as voxels, as the list returned by the zoom change, and at the
      level of the two exported functions. *)
   Theorem point_nesting_partial p h v h' v' : 0 <= h' <= h -> h <= 35 -> 0 <= v' <= v -> v <= 35 ->
-    pt_dom p -> ~ alt_underflow (palt p) v' ->
+    pt_dom p -> ~ alt_vanishes (palt p) v' ->
     exists i i', peid p h v = Some i /\ peid p h' v' = Some i' /\ valid i /\ valid i' /\
                  eh i = h /\ ev i = v /\ eh i' = h' /\ ev i' = v' /\
                  ex i' = anc (h - h') (ex i) /\ ey i' = anc (h - h') (ey i) /\ ef i' = anc (v - v') (ef i) /\
                  change_eids [i] h' v' = [i'].
   Proof.
     intros Hh H35 Hv V35 D Nu.
-    assert (Nu2 : ~ alt_underflow (palt p) v) by (apply (alt_underflow_finer _ v v'); [lia|exact Nu]).
+    assert (Nu2 : ~ alt_vanishes (palt p) v) by (apply (not_vanishes_finer _ v v'); [lia|exact Nu]).
     exists (pvox p h v), (pvox p h' v').
     split; [apply point_eid_pvox; auto; lia|]. split; [apply point_eid_pvox; auto; lia|].
     assert (V1 : valid (pvox p h v)) by (apply pvox_valid; auto; lia).
@@ -506,10 +641,22 @@ Section WithOracle.
     f_equal. unfold ancestor. cbn [pvox mk eh ex ey ev ef]. now rewrite Rx, Ry, Rf.
   Qed.
 
+  (* "nested" read on regions of space: every point of the finer voxel lies in the coarser voxel (same guards) *)
+  Theorem point_regions_nested_partial p h v h' v' : 0 <= h' <= h -> h <= 35 -> 0 <= v' <= v -> v <= 35 ->
+    pt_dom p -> ~ alt_vanishes (palt p) v' ->
+    exists i i', peid p h v = Some i /\ peid p h' v' = Some i' /\ forall q, inR i q -> inR i' q.
+  Proof.
+    intros Hh H35 Hv V35 D Nu.
+    destruct (point_nesting_partial p h v h' v' Hh H35 Hv V35 D Nu) as (i & i' & E1 & E2 & V1 & V2 & Z1 & Z2 & _ & _ & _ & _ & _ & C).
+    exists i, i'. split; [exact E1|]. split; [exact E2|].
+    destruct (lower_single i h' v' (valid_wf i V1) ltac:(lia) ltac:(lia)) as [L R].
+    rewrite <- change_single, C in L. injection L as ->. exact R.
+  Qed.
+
   (* the same through the exported functions: GetExtendedSpatialIdsOnPoints at both zoom pairs, ChangeExtendedSpatialIdsZoom on the
      finer answer returns the coarser answer *)
   Theorem point_nesting_api_partial p h v h' v' : 0 <= h' <= h -> h <= 35 -> 0 <= v' <= v -> v <= 35 ->
-    pt_dom p -> ~ alt_underflow (palt p) v' ->
+    pt_dom p -> ~ alt_vanishes (palt p) v' ->
     exists s s', papi false [p] h v = Ok [s] /\ papi false [p] h' v' = Ok [s'] /\ change_ext_api [s] h' v' = Ok [s'].
   Proof.
     intros Hh H35 Hv V35 D Nu.
@@ -525,13 +672,13 @@ Section WithOracle.
   (* hence the voxels of one point at ANY two zoom pairs (no order between them, crossed orders included) overlap, and the overlap
      check of the library says so *)
   Theorem point_voxels_overlap_partial p h1 v1 h2 v2 : 0 <= h1 <= 35 -> 0 <= v1 <= 35 -> 0 <= h2 <= 35 -> 0 <= v2 <= 35 ->
-    pt_dom p -> ~ alt_underflow (palt p) (Z.min v1 v2) ->
+    pt_dom p -> ~ alt_vanishes (palt p) (Z.min v1 v2) ->
     exists i j, peid p h1 v1 = Some i /\ peid p h2 v2 = Some j /\ overlaps i j /\
                 overlap_check_api (print_eid i) (print_eid j) = Ok true.
   Proof.
     intros A B C E D Nu.
-    assert (N1 : ~ alt_underflow (palt p) v1) by (apply (alt_underflow_finer _ v1 (Z.min v1 v2)); [lia|exact Nu]).
-    assert (N2 : ~ alt_underflow (palt p) v2) by (apply (alt_underflow_finer _ v2 (Z.min v1 v2)); [lia|exact Nu]).
+    assert (N1 : ~ alt_vanishes (palt p) v1) by (apply (not_vanishes_finer _ v1 (Z.min v1 v2)); [lia|exact Nu]).
+    assert (N2 : ~ alt_vanishes (palt p) v2) by (apply (not_vanishes_finer _ v2 (Z.min v1 v2)); [lia|exact Nu]).
     exists (pvox p h1 v1), (pvox p h2 v2).
     split; [now apply point_eid_pvox|]. split; [now apply point_eid_pvox|].
     assert (O : overlaps (pvox p h1 v1) (pvox p h2 v2)) by (apply pvox_overlaps; lia).
@@ -541,17 +688,17 @@ Section WithOracle.
   (* refutation on the class, at the level of voxels: for every libm oracle, the two voxels of the point (0, 0, -2^-1074 m) at vertical
      zooms 25 and 24 (same horizontal zoom) do not overlap *)
   Theorem point_nesting_underflow_refuted :
-    exists p, ffin (plon p) = true /\ ffin (palt p) = true /\ (Rabs (fval (palt p)) <= bpow radix2 25)%R /\ alt_underflow (palt p) 24 /\
+    exists p, ffin (plon p) = true /\ ffin (palt p) = true /\ (Rabs (fval (palt p)) <= bpow radix2 25)%R /\ alt_vanishes (palt p) 24 /\
       forall h i j, peid p h 25 = Some i -> peid p h 24 = Some j -> ef i = -1 /\ ef j = 0 /\ ~ overlaps i j.
   Proof.
     exists {| plon := 0%float; plat := 0%float; palt := alt_witness |}. cbn [plon plat palt].
     destruct alt_witness_val as [Vw Fw].
     assert (P : (0 < bpow radix2 (-1074))%R) by apply bpow_gt_0.
-    assert (Q : (bpow radix2 (-1074) < bpow radix2 (-997 - 24))%R) by (apply bpow_lt; lia).
     assert (Q2 : (bpow radix2 (-1074) < bpow radix2 25)%R) by (apply bpow_lt; lia).
-    split; [vm_compute; reflexivity|]. split; [exact Fw|].
-    unfold alt_underflow. rewrite Vw, Rabs_Ropp, Rabs_pos_eq by lra.
-    split; [lra|]. split; [split; lra|].
+    assert (Q3 : (bpow radix2 25 <= bpow radix2 40)%R) by (apply bpow_le; lia).
+    assert (B25 : (Rabs (fval alt_witness) <= bpow radix2 25)%R) by (rewrite Vw, Rabs_Ropp, Rabs_pos_eq by lra; lra).
+    split; [vm_compute; reflexivity|]. split; [exact Fw|]. split; [exact B25|].
+    split; [apply alt_vanishes_b_spec; [lia | exact Fw | lra | vm_compute; reflexivity]|].
     intros h i j. unfold point_eid. cbn [plon plat palt].
     destruct (x_f 0%float h) as [x|]; [|discriminate]. destruct (yf 0%float h) as [y|]; [|discriminate].
     replace (f_f alt_witness 25) with (Some (-1)) by (vm_compute; reflexivity).
@@ -563,7 +710,7 @@ End WithOracle.
 
 (* non-vacuity of pt_dom and of the guard: the point (139.75, 0, -75.5 m) with an oracle whose Mercator float is 1 (the equator) *)
 Example pt_dom_example :
-  exists (t c l : pfloat -> pfloat) p, pt_dom t c l p /\ ~ alt_underflow (palt p) 0.
+  exists (t c l : pfloat -> pfloat) p, pt_dom t c l p /\ ~ alt_vanishes (palt p) 0.
 Proof.
   exists (fun _ => 0%float), (fun _ => 1%float), (fun _ => 0%float), {| plon := 139.75%float; plat := 0%float; palt := (-75.5)%float |}.
   assert (VL : fval 139.75%float = (559 / 4)%R /\ ffin 139.75%float = true).
@@ -579,7 +726,7 @@ Proof.
   - unfold pt_dom. cbn [plon plat palt].
     replace (merc_m (fun _ => 0%float) (fun _ => 1%float) (fun _ => 0%float) 0%float) with 1%float by (vm_compute; reflexivity).
     rewrite L1, L2, A1, A2, M1, M2, P25. repeat split; lra.
-  - cbn [palt]. unfold alt_underflow. rewrite A1. intros [_ C].
+  - apply not_underflow_not_vanishes. cbn [palt]. unfold alt_underflow. rewrite A1. intros [_ C].
     assert (B : (bpow radix2 (-997 - 0) < 1)%R) by (change 1%R with (bpow radix2 0); apply bpow_lt; lia).
     rewrite Rabs_left in C by lra. lra.
 Qed.
@@ -589,23 +736,21 @@ Qed.
 (* ================================================================================================================== *)
 
 (* ---- one point at two zoom pairs: id1 at (h1,v1), id2 at (h2,v2), chg = ChangeExtendedSpatialIdsZoom([id1], h2, v2),
-        ovl = CheckExtendedSpatialIdsOverlap(id1, id2) when the harness called it ---- *)
-Definition check_nesting (h1 v1 h2 v2 : Z) (id1 id2 : string) (chg : list string) (ovl : option bool) : bool :=
+        ovl = CheckExtendedSpatialIdsOverlap(id1, id2) ---- *)
+Definition check_nesting (h1 v1 h2 v2 : Z) (id1 id2 : string) (chg : list string) (ovl : bool) : bool :=
   match parse_eid id1, parse_eid id2 with
   | Some e1, Some e2 =>
-      (eh e1 =? h1) && (ev e1 =? v1) && (eh e2 =? h2) && (ev e2 =? v2) && overlapsb e1 e2 &&
-      memb String.eqb id2 chg &&
-      (if (h2 <=? h1) && (v2 <=? v1) then list_eqb String.eqb chg [id2] else true) &&
-      (match ovl with Some b => b | None => true end)
+      (eh e1 =? h1) && (ev e1 =? v1) && (eh e2 =? h2) && (ev e2 =? v2) && validb e1 && validb e2 && overlapsb e1 e2 &&
+      check_change [e1] h2 v2 chg && memb String.eqb id2 chg && ovl
   | _, _ => false
   end.
-(* what C09 demands of the four observed results: both IDs at the requested zooms; nested (on each axis the coarser index is the
-   floor-ancestor of the finer); the ID at the second zoom pair is among the results of changing the first ID to that zoom pair, and is
-   the only result when the second pair is coarser-or-equal on both axes; the overlap check did not answer "disjoint" *)
-Definition nesting_spec (h1 v1 h2 v2 : Z) (id1 id2 : string) (chg : list string) (ovl : option bool) : Prop :=
+(* what C09 demands of the four observed results: both IDs are valid IDs at the requested zooms; nested (on each axis the coarser index
+   is the floor-ancestor of the finer); the zoom change of the first ID to the second zoom pair is exactly the set of voxels of that grid
+   meeting it (C03's specification, without repetition) and contains the second ID; the overlap check answered true *)
+Definition nesting_spec (h1 v1 h2 v2 : Z) (id1 id2 : string) (chg : list string) (ovl : bool) : Prop :=
   exists e1 e2, parse_eid id1 = Some e1 /\ parse_eid id2 = Some e2 /\
-    eh e1 = h1 /\ ev e1 = v1 /\ eh e2 = h2 /\ ev e2 = v2 /\ overlaps e1 e2 /\ In id2 chg /\
-    (h2 <= h1 -> v2 <= v1 -> chg = [id2]) /\ ovl <> Some false.
+    eh e1 = h1 /\ ev e1 = v1 /\ eh e2 = h2 /\ ev e2 = v2 /\ valid e1 /\ valid e2 /\ overlaps e1 e2 /\
+    spec_obs [e1] h2 v2 chg /\ In id2 chg /\ ovl = true.
 
 Theorem check_nesting_sound h1 v1 h2 v2 id1 id2 chg ovl :
   check_nesting h1 v1 h2 v2 id1 id2 chg ovl = true <-> nesting_spec h1 v1 h2 v2 id1 id2 chg ovl.
@@ -613,16 +758,29 @@ Proof.
   unfold check_nesting, nesting_spec.
   destruct (parse_eid id1) as [e1|]; [|split; [discriminate|intros (a & b & E & _); discriminate]].
   destruct (parse_eid id2) as [e2|]; [|split; [discriminate|intros (a & b & _ & E & _); discriminate]].
-  rewrite !andb_true_iff, !Z.eqb_eq, overlapsb_spec, (memb_In String.eqb String.eqb_spec).
-  assert (I : (if (h2 <=? h1) && (v2 <=? v1) then list_eqb String.eqb chg [id2] else true) = true <->
-              (h2 <= h1 -> v2 <= v1 -> chg = [id2])).
-  { destruct (Z.leb_spec h2 h1); destruct (Z.leb_spec v2 v1); cbn [andb]; try (split; [intros _ ? ?; lia | reflexivity]).
-    destruct (list_eqb_spec String.eqb String.eqb_spec chg [id2]) as [E|N]; split; auto; try discriminate. }
-  assert (O : (match ovl with Some b => b | None => true end) = true <-> ovl <> Some false).
-  { destruct ovl as [[|]|]; split; congruence. }
-  rewrite I, O. split.
-  - intros H. exists e1, e2. intuition.
-  - intros (a & b & [= <-] & [= <-] & H). intuition.
+  rewrite !andb_true_iff, !Z.eqb_eq, !validb_spec, overlapsb_spec, (memb_In String.eqb String.eqb_spec).
+  assert (C : valid e1 -> valid e2 -> eh e2 = h2 -> ev e2 = v2 -> (check_change [e1] h2 v2 chg = true <-> spec_obs [e1] h2 v2 chg)).
+  { intros V1 V2 <- <-. destruct V2 as (A & B & _). apply check_change_sound; auto. intros k [<-|[]]. exact V1. }
+  split.
+  - intros H. exists e1, e2. destruct H as (((((((((A1 & A2) & A3) & A4) & A5) & A6) & A7) & A8) & A9) & A10).
+    repeat (split; [reflexivity || assumption|]). split; [now apply C|]. auto.
+  - intros (a & b & [= <-] & [= <-] & A1 & A2 & A3 & A4 & A5 & A6 & A7 & A8 & A9 & A10).
+    pose proof (proj2 (C A5 A6 A3 A4) A8). tauto.
+Qed.
+
+(* when the second zoom pair is coarser or equal on both axes, the specification says: the zoom change returned exactly [id2] *)
+Theorem nesting_spec_ordered h1 v1 h2 v2 id1 id2 chg ovl : nesting_spec h1 v1 h2 v2 id1 id2 chg ovl -> h2 <= h1 -> v2 <= v1 -> chg = [id2].
+Proof.
+  intros (e1 & e2 & _ & _ & Z1 & Z2 & Z3 & Z4 & V1 & V2 & _ & [ND Hs] & Hin & _) Lh Lv.
+  pose proof V2 as (R1 & R2 & _). rewrite Z3 in R1. rewrite Z4 in R2.
+  assert (V1' : forall k, In k [e1] -> valid k) by (intros k [<-|[]]; exact V1).
+  assert (U : forall s, In s chg -> s = print_eid (ancestor e1 h2 v2)).
+  { intros s Hs'. apply Hs in Hs'. destruct Hs' as (o & -> & Zo). f_equal.
+    apply (change_exact_valid [e1] h2 v2 o V1' R1 R2) in Zo.
+    rewrite (change_lower_single e1 h2 v2 V1) in Zo by lia. destruct Zo as [<-|[]]. reflexivity. }
+  apply singleton_of_NoDup; [exact ND|]. intros s. split.
+  - intros Hs'. rewrite (U s Hs'). symmetry. now apply U.
+  - intros ->. exact Hin.
 Qed.
 
 (* ---- zoom in then out: size = number of IDs after zooming in, back = result of zooming that list out again ---- *)
@@ -658,18 +816,17 @@ Proof.
   - intros (a & [= <-] & B). contradiction.
 Qed.
 
-(* ---- one point at a ladder of zoom pairs: the IDs are at the requested zooms and pairwise nested; no overlap call said "disjoint" ---- *)
+(* ---- one point at a ladder of zoom pairs: valid IDs at the requested zooms, pairwise nested; every overlap call said "overlapping" ---- *)
 Fixpoint all_pairs {A} (r : A -> A -> bool) (l : list A) : bool :=
   match l with [] => true | a :: t => forallb (r a) t && all_pairs r t end.
 Definition zooms_of (es : list eid) : list (Z * Z) := map (fun e => (eh e, ev e)) es.
-Definition check_ladder (zs : list (Z * Z)) (ids : list string) (bools : list (option bool)) : bool :=
+Definition check_ladder (zs : list (Z * Z)) (ids : list string) (bools : list bool) : bool :=
   match map_opt parse_eid ids with
-  | Some es => list_eqb eqb2 (zooms_of es) zs && all_pairs overlapsb es &&
-               forallb (fun b => match b with Some false => false | _ => true end) bools
+  | Some es => list_eqb eqb2 (zooms_of es) zs && forallb validb es && all_pairs overlapsb es && forallb (fun b => b) bools
   | None => false
   end.
-Definition ladder_spec (zs : list (Z * Z)) (ids : list string) (bools : list (option bool)) : Prop :=
-  exists es, map_opt parse_eid ids = Some es /\ zooms_of es = zs /\ ForallOrdPairs overlaps es /\ Forall (fun b => b <> Some false) bools.
+Definition ladder_spec (zs : list (Z * Z)) (ids : list string) (bools : list bool) : Prop :=
+  exists es, map_opt parse_eid ids = Some es /\ zooms_of es = zs /\ Forall valid es /\ ForallOrdPairs overlaps es /\ Forall (fun b => b = true) bools.
 Lemma all_pairs_spec l : all_pairs overlapsb l = true <-> ForallOrdPairs overlaps l.
 Proof.
   induction l as [|a t IH]; cbn [all_pairs].
@@ -682,13 +839,13 @@ Qed.
 Theorem check_ladder_sound zs ids bools : check_ladder zs ids bools = true <-> ladder_spec zs ids bools.
 Proof.
   unfold check_ladder, ladder_spec. destruct (map_opt parse_eid ids) as [es|]; [|split; [discriminate|intros (a & E & _); discriminate]].
-  rewrite !andb_true_iff, all_pairs_spec, forallb_forall.
-  assert (B : (forall x, In x bools -> match x with Some false => false | _ => true end = true) <-> Forall (fun b => b <> Some false) bools).
-  { rewrite Forall_forall. split; intros F x Hx; specialize (F x Hx); destruct x as [[|]|]; congruence. }
-  rewrite B. destruct (list_eqb_spec eqb2 eqb2_spec (zooms_of es) zs) as [E|N]; split.
-  - intros [[_ P] Q]. exists es. auto.
-  - intros (a & [= <-] & _ & P & Q). auto.
-  - intros [[X _] _]. discriminate.
+  rewrite !andb_true_iff, all_pairs_spec, !forallb_forall, <- !Forall_forall.
+  assert (Vv : Forall (fun x => validb x = true) es <-> Forall valid es).
+  { rewrite !Forall_forall. split; intros F x Hx; apply validb_spec; auto. }
+  rewrite Vv. destruct (list_eqb_spec eqb2 eqb2_spec (zooms_of es) zs) as [E|N]; split.
+  - intros [[[_ P0] P] Q]. exists es. auto.
+  - intros (a & [= <-] & _ & P0 & P & Q). auto.
+  - intros [[[X _] _] _]. discriminate.
   - intros (a & [= <-] & X & _). contradiction.
 Qed.
 (* the relation is symmetric, so "ordered pairs" means all pairs *)
@@ -701,11 +858,11 @@ Qed.
 
 (* the model's own answers pass the checkers (so a "prop" failure is never produced by the checker being too strict on the model) *)
 Theorem model_passes_check_nesting (t c l : pfloat -> pfloat) p h v h' v' :
-  0 <= h' <= h -> h <= 35 -> 0 <= v' <= v -> v <= 35 -> pt_dom t c l p -> ~ alt_underflow (palt p) v' ->
+  0 <= h' <= h -> h <= 35 -> 0 <= v' <= v -> v <= 35 -> pt_dom t c l p -> ~ alt_vanishes (palt p) v' ->
   exists i i', point_eid t c l p h v = Some i /\ point_eid t c l p h' v' = Some i' /\
     change_ext_api [print_eid i] h' v' = Ok [print_eid i'] /\
     overlap_check_api (print_eid i) (print_eid i') = Ok true /\
-    check_nesting h v h' v' (print_eid i) (print_eid i') [print_eid i'] (Some true) = true.
+    check_nesting h v h' v' (print_eid i) (print_eid i') [print_eid i'] true = true.
 Proof.
   intros Hh H35 Hv V35 D Nu.
   destruct (point_nesting_partial t c l p h v h' v' Hh H35 Hv V35 D Nu)
@@ -713,11 +870,14 @@ Proof.
   exists i, i'. split; [exact E1|]. split; [exact E2|].
   assert (O : overlaps i i').
   { unfold overlaps. rewrite Z1, Z2, Z3, Z4. rewrite !rel1_ge by lia. auto. }
+  assert (V1' : forall k, In k [i] -> valid k) by (intros k [<-|[]]; exact V1).
   split; [|split].
-  - change [print_eid i] with (map print_eid [i]). rewrite change_ext_api_spec; [|intros k [<-|[]]; exact V1|lia|lia]. now rewrite C.
+  - change [print_eid i] with (map print_eid [i]). rewrite change_ext_api_spec; [|exact V1'|lia|lia]. now rewrite C.
   - now apply overlap_check_api_true_iff.
   - apply check_nesting_sound. exists i, i'. rewrite !parse_print_eid by now apply valid_fields_ok.
-    repeat (split; [reflexivity || assumption|]). split; [now left|]. split; [reflexivity|discriminate].
+    repeat (split; [reflexivity || assumption|]). split; [|split; [now left|reflexivity]].
+    apply check_change_sound; [exact V1'|lia|lia|].
+    pose proof (model_passes_check [i] h' v' V1' ltac:(lia) ltac:(lia)) as M. now rewrite C in M.
 Qed.
 Theorem model_passes_check_in_out i H V : valid i -> eh i <= H <= 35 -> ev i <= V <= 35 ->
   exists mid, change_ext_api [print_eid i] H V = Ok mid /\
@@ -729,11 +889,11 @@ Proof.
   apply check_in_out_sound. exists i. split; [apply parse_print_eid; now apply valid_fields_ok|]. split; [|reflexivity].
   rewrite L. apply Z2Nat.id. apply Z.mul_nonneg_nonneg; apply Z.pow_nonneg; lia.
 Qed.
-Theorem model_passes_check_merge_desc i H V l : valid i -> eh i <= H <= 35 -> ev i <= V <= 35 ->
+Theorem model_passes_check_merge_desc i H V l : valid i -> eh i <= H <= 35 -> ev i <= V <= 35 -> 2 * (H - eh i) + (V - ev i) <= 62 ->
   (forall o, In o l <-> In o (change_eids [i] H V)) ->
   exists merged, merge_ext_api (map print_eid l) (eh i) (ev i) = Ok merged /\ check_merge_desc (print_eid i) merged = true.
 Proof.
-  intros Vi HH HV Hl. exists [print_eid i]. split; [now apply (merge_descendants_api i H V)|].
+  intros Vi HH HV B Hl. exists [print_eid i]. split; [now apply (merge_descendants_api i H V)|].
   apply check_merge_desc_sound. exists i. split; [apply parse_print_eid; now apply valid_fields_ok|reflexivity].
 Qed.
 
